@@ -29,7 +29,8 @@ TRUSTED = [
     'correspondence is differential testing: model = code only on the histories executed',
 ]
 ASSUMPTIONS = [
-    'one global Time object (param.Dynamic.time_fn) with time_type=int; generators use it',
+    'one global Time object (param.Dynamic.time_fn) with time_type=int (Fraction/float times are not generated; '
+    'equal-but-not-identical times are exercised with non-interned ints); generators use it',
     'a generator\'s "name" is the name given at construction (the hash name): copies made on instantiation '
     'get a new .name but keep the hash name',
     'seeds are explicit integers; param.random_seed is not changed',
@@ -39,7 +40,8 @@ ASSUMPTIONS = [
 RULE = ('directed prefix (time -1 as first read = regression of the repaired cache marker, cache copy on instantiation, shared generators, exceptions in nested contexts, '
         'unbalanced pop, time_dependent off) + all sequences of length <=2 (<=3 thorough) over a 15-statement alphabet '
         '+ random histories of <=30 statements (time jumps forward/backward/repeated/negative/huge, reads, inspections, '
-        'forced values, nested contexts left normally / by StopIteration / by KeyError, push/pop, assignments, new '
+        'equal times arriving as new int objects (values > 256 set twice, += d then -= d) between reads of '
+        'generators with memory, forced values, nested contexts left normally / by StopIteration / by KeyError, push/pop, assignments, new '
         'instances) over 1-4 parameters (Dynamic and Number), time-dependent generators with 3 names x 3 seeds x 3 '
         'distributions, counters and seeded streams. non-trivial = at least one oracle conclusion checked and one '
         'value read from a time-dependent generator; distinct = distinct canonical case')
@@ -371,6 +373,18 @@ def _directed():
     yield _mk([_p('dynamic', _td())], [T(-1), R(-1, 0), R(-1, 0), F(-1, 0), R(-1, 0), T(0), R(-1, 0), T(-1), R(-1, 0)])
     yield _mk([_p('dynamic', _st(0))], [T(-1), R(-1, 0), R(-1, 0), T(0), R(-1, 0)])
     yield _mk([_p('dynamic', _td())], [T(0), R(-1, 0), T(-1), R(-1, 0), T(0), R(-1, 0)])
+    # an equal time that is a different object: ints above 256 are not interned, `t(300)` twice or
+    # `+= d; -= d` yield a new int object; generators with memory (counter, seeded stream) must then
+    # repeat the cached value (equality of times, not identity, decides)
+    mem = [_p('dynamic', _st(0)), _p('number', _st(1)), _p('dynamic', _td())]
+    yield _mk(mem, [NEW, T(300), R(0, 0), R(0, 1), R(0, 2), T(300), R(0, 0), R(0, 1), R(0, 2),
+                    {'op': 'advance', 'd': 700}, {'op': 'advance', 'd': -700}, R(0, 0), R(0, 1), R(-1, 0), T(300), R(-1, 0),
+                    T(10 ** 6), R(0, 0), I(0, 0), T(10 ** 6), R(0, 0), T(-1000), R(0, 1), T(-1000), R(0, 1),
+                    CTX(T(5000), R(0, 0), T(5000), R(0, 0)), R(0, 0), T(-1000), R(0, 0)])
+    yield _mk(mem, [NEW, NEW, T(2 ** 40), R(0, 0), R(1, 0), {'op': 'push', 'i': 0}, T(2 ** 40), R(0, 0),
+                    {'op': 'advance', 'd': 1}, {'op': 'advance', 'd': -1}, R(0, 0), {'op': 'pop', 'i': 0}, T(2 ** 40), R(0, 0),
+                    R(1, 0)])
+    yield _mk([_p('dynamic', _st(2))], [T(257), R(-1, 0), T(257), R(-1, 0), T(256), R(-1, 0), T(256), R(-1, 0)])
     # forward / backward / repeated, two instances, class-level
     yield _mk(two, [NEW, NEW] + [x for t in (0, 1, 2, 1, 0, 5, 0, -2, 3, -2, 2, 2 ** 32 + 1, 1)
                                  for x in (T(t), R(0, 0), R(1, 0), R(-1, 0), R(0, 1), R(0, 1))])
@@ -451,7 +465,7 @@ def _random_case(rng):
     def time():
         r = rng.random()
         if r < 0.75:
-            t = rng.choice([0, 1, 2, 3, 5, 8, -2, -3])
+            t = rng.choice([0, 1, 2, 3, 5, 8, -2, -3, 300, 1000, -700])
         elif r < 0.85:
             t = rng.choice([-1000, 2 ** 32 + 1, 2 ** 40, -2 ** 33])
         else:
@@ -474,6 +488,17 @@ def _random_case(rng):
                 ops.append(dict(NEW))
                 st['ninst'] += 1
                 st['ngens'] += nparams          # upper bound; only used to draw `existing`
+            elif r < 0.05:
+                # the same (non-interned) time arriving as a new object between two reads
+                t, tg_, p_ = rng.choice([300, 1000, -700, 10 ** 6, 2 ** 40]), tgt(), rng.randrange(nparams)
+                ops.append(T(t))
+                ops.append(R(tg_, p_))
+                if rng.random() < 0.5:
+                    ops.append(T(t))
+                else:
+                    d = rng.choice([1, 7, 500, -300])
+                    ops.extend([{'op': 'advance', 'd': d}, {'op': 'advance', 'd': -d}])
+                ops.append(R(tg_, p_))
             elif r < 0.2:
                 ops.append(T(time()))
             elif r < 0.27:
